@@ -141,6 +141,16 @@ def run(ctx):
         k = rng.choice(["p", "p", "r", "table"])
         block, el = probe_element(rng, k, i)
         ms = near_misses(rng, el)
+        bare = i < 4
+        if bare:
+            # dedicated: NO mapping anywhere - no explicit map (absent or empty), no embedded map, the defaults switched off: whatever the
+            # paragraph's style or numbering, it becomes a plain p
+            k = "p"
+            sid, sname = [("Heading1", "Heading 1"), ("ListParagraph", "List Paragraph"), (None, None), ("Quote", "Intense Quote")][i]
+            ppr_ = ([X("w:pStyle", {"w:val": sid})] if sid else []) + ([X("w:numPr", {}, [X("w:ilvl", {"w:val": "0"}), X("w:numId", {"w:val": "1"})])] if i == 2 else [])
+            block = X("w:p", {}, [X("w:pPr", {}, ppr_), X("w:r", {}, [X("w:t", {}, [XT("probe%d" % i)])])])
+            el = {"kind": "p", "style_id": sid, "style_name": sname, "numbering": ("0", False) if i == 2 else (("0", True) if sid == "ListParagraph" else None), "text": "probe%d" % i}
+            ms = []
         lines = []
         bang = set()       # indices of mappings whose path is `!`: the matched element disappears WITH its contents
         with_note = (k == "r" and rng.random() < 0.5)
@@ -154,6 +164,8 @@ def run(ctx):
         cut = rng.randint(0, len(lines))
         custom, embedded = lines[:cut], lines[cut:]
         incl_emb, incl_def = rng.random() < 0.8, rng.random() < 0.7
+        if bare:
+            incl_def = False
         pkg = gen_xml.Package()
         g = gen_xml.XGen(rng)
         pkg.styles = [X("w:style", {"w:type": t, "w:styleId": sid}, [X("w:name", {"w:val": nm})] if nm else [])
@@ -161,7 +173,7 @@ def run(ctx):
         pkg.numbering = g.numbering_part()
         # a SIBLING before the probe: same kind and style, different numbering — every element is matched on its own features
         sib = None
-        if k == "p" and rng.random() < 0.6:
+        if k == "p" and rng.random() < 0.6 and not bare:
             ppr0 = [X("w:pStyle", {"w:val": el["style_id"]})] if el["style_id"] else []
             choices = [(lv, nid) for lv in (0, 1, 2) for nid in ("1", "2")]
             table = {"1": [False, False, True], "2": [True, True, False]}
@@ -180,7 +192,7 @@ def run(ctx):
             # the probe run also holds a footnote reference: under a `!` mapping neither the marker nor the note may appear
             block.children[0].children.append(X("w:footnoteReference", {"w:id": "2"}))
             pkg.footnotes = [X("w:footnote", {"w:id": "2"}, [X("w:p", {}, [X("w:r", {}, [X("w:t", {}, [XT("notebody%d" % i)])])])])]
-        if embedded or rng.random() < 0.3:
+        if (embedded or rng.random() < 0.3) and not (bare and i % 2 == 0):
             pkg.embedded_style_map = "\n".join(l for _, l in embedded)
         opts = {"style_map": "\n".join(l for _, l in custom) if custom or rng.random() < 0.5 else None,
                 "include_default_style_map": incl_def, "include_embedded_style_map": incl_emb,
